@@ -11,6 +11,9 @@ def run(chk, replay):
         from harness import cli
         cli.phase(chk, "taste")
         real_history_phase(chk)
+        # headers with repeated names and names that look like generated keys (FieldKeys.tla) are well-formed too
+        from harness import keys
+        keys.phase(chk, "taste")
 
 
 def real_history_phase(chk):
